@@ -302,9 +302,10 @@ class UnionConverter(Converter[t.Any]):
         """See [`Converter.try_convert`][pane.converters.Converter.try_convert]"""
         for (i, conv) in enumerate(self.converters):
             try:
-                val = conv.try_convert(val)
+                # (every member is given `val` itself, also after the constructor refused an earlier member's result)
+                conv_val = conv.try_convert(val)
                 try:
-                    return self.construct(val, i)
+                    return self.construct(conv_val, i)
                 except Exception:
                     pass
             except ParseInterrupt:
